@@ -142,6 +142,13 @@ def relayout(text, rng):
     return "// leading comment\n" + out + "\n/* trailing */"
 
 
+def relayout_dense(text):
+    """whitespace / comments at every bracket and comma: `(x,)` becomes `( x ,\t\n )`, `f(a, b)` becomes `f( a , b\n )`"""
+    out = text.replace("(", "( /* o */ ").replace(")", "\n )").replace(",", " ,\t")
+    out = out.replace("{", "{ ").replace("}", " }").replace(";", " ;")
+    return out
+
+
 def cases(tier, seed):
     rng = random.Random(seed)
     base = [c for c in c01.cases("quick", seed) if not c.mut and not c.expect_reject]
@@ -154,7 +161,7 @@ def cases(tier, seed):
         names = collect_names(c.prog)
         maps = make_maps(names, random.Random(seed * 7919 + i))
         p2 = rename(c.prog, maps)
-        variant = i % 4
+        variant = i % 5
         text = None
         tag = "renamed"
         if variant == 1:
@@ -166,6 +173,9 @@ def cases(tier, seed):
         elif variant == 3:
             text = relayout(program_text(p2), rng)
             tag = "renamed+comments/whitespace"
+        elif variant == 4:
+            text = relayout_dense(program_text(p2))
+            tag = "renamed+whitespace at every bracket and comma"
         out.append(E.Case("rename-%d-%s" % (i, c.cid), p2, text=text, validate=(i % 3 == 0),
                           tags={"variant": tag, "from": c.cid, "seed": seed,
                                 "names": sorted(set(list(maps["var"].values()) + list(maps["fn"].values())))[:8]}))
